@@ -1,5 +1,6 @@
 import GnarkVerif.Model.PointCodec
 import GnarkVerif.Model.PointCodecComp
+import GnarkVerif.Model.SigParams
 import GnarkVerif.Gen.Fields
 /-
 C07 — concrete instances of the point codec model (coordinate fields Fp, Fp², Fp⁴ of the ten curve packages with a
@@ -431,6 +432,35 @@ def compOp (E : Env α β) (be : Bool) (q fb words : Nat) (args : List String) :
     | _ => "bad-op"
   | _ => "bad-op"
 
+/-! ## twisted-Edwards point codec (`ted`) -/
+
+/-- `PointAffine.SetBytes` as the property demands it: a canonical ordinate (below q), an abscissa exists
+(`(1−y²)/(a−d·y²)` is a square), the point is on the curve, no sign bit on `x = 0` — then and only then the string is
+accepted, and it is the `Bytes` of the point it denotes (`Sig.EdParams.compress`) -/
+def tedDecode (P : Sig.EdParams) (buf : List UInt8) : Except String ((Nat × Nat) × Nat) :=
+  if buf.length < P.size then .error "err:short" else
+  let y := P.yRaw buf
+  if ¬ y < P.q then .error "err:noncanon" else
+  match Sig.sqrtF P.q (P.ratio y) with
+  | none => .error "err:nosqrt"
+  | some _ =>
+    let X := P.decompress (Sig.sqrtF P.q) buf
+    if ¬ P.onCurve X then .error "err:offcurve"
+    else if X.1 == 0 && P.signBit buf then .error "err:sign"
+    else .ok (X, P.size)
+
+def tedOp (P : Sig.EdParams) (args : List String) : String :=
+  match args with
+  | ["enc", pt] =>
+    match pt.splitOn ";" with
+    | [x, y] => bytesToHex (P.compress (parseHexD x, parseHexD y))
+    | _ => "bad-op"
+  | ["dec", hex] =>
+    match tedDecode P (parseBytes hex) with
+    | .error e => e
+    | .ok (X, n) => "ok " ++ toHex X.1 ++ ";" ++ toHex X.2 ++ " " ++ toHex n
+  | _ => "bad-op"
+
 def layoutNum : Layout → Nat | .raw => 0 | .two => 2 | .three => 3
 
 def paramsLine (d : CurveDesc) : String :=
@@ -448,6 +478,10 @@ def mkEnv (d : CurveDesc) (C2 : Codec β) : Env Nat β :=
 /-- `C07 <op> <curve> …` -/
 def handle (args : List String) : String :=
   match args with
+  | "ted" :: inst :: rest =>
+    match SigParams.edCurves.find? (·.name == inst) with
+    | none => "bad-op"
+    | some P => tedOp P rest
   | op :: cname :: rest =>
     match curves.find? (·.name == cname) with
     | none => "bad-op"
